@@ -414,3 +414,175 @@ class Programs:
             if isinstance(obj, (staticmethod, classmethod)):
                 obj = obj.__func__
         return find_raw(obj)
+
+
+# ------------------------------------------------------------------ cases for the plugins
+
+AMBIGUOUS = (bool, int, float, str, bytes, type, type(None), frozenset)
+
+
+def meaningful(o):
+    """does `is` identify this object (CPython shares small ints, strings, (), None, …)"""
+    return not isinstance(o, AMBIGUOUS) and o != ()
+
+
+def real_pedantic(kind, alias):
+    return kind in ('plain', 'inst_direct', 'static_direct', 'require_kwargs', 'require_kwargs_method') and not alias
+
+
+def implicit_of(kind, acc):
+    return 1 if (acc[0] == 'inst' and kind in ('inst_direct', 'inst_class', 'dunder_class', 'static_class', 'class_class',
+                                               'require_kwargs_method')) else 0
+
+
+def execute(P, F, acc, pos, kw, body):
+    """run the decorated callable and its undecorated twin on the same (freshly built) objects"""
+    coroutine = F['flavour'] == 'coroutine'
+
+    def one(mod, hook):
+        target, inst = P.target(mod, acc)
+        pos_objs = [K.build_val(t) for t in pos]
+        kw_objs = {K.name_of(k): K.build_val(t) for k, t in kw}
+        if body[0] == 'raises':
+            script = ('raises', make_exc(body[1]))
+        else:
+            script = ('ret', K.build_val(body[1]))
+        out, res, journal = run_one(target, pos_objs, kw_objs, hook, script, coroutine)
+        caller_objs = pos_objs + list(kw_objs.values())
+        got = [i for i in received_ids(journal, caller_objs) if meaningful(caller_objs[i])]
+        mean = [i for i, o in enumerate(caller_objs) if meaningful(o)]
+        if out == 'RET':
+            if res is script[1]: out = 'RET'
+            elif type(res).__name__ == 'GeneratorWrapper': out = 'RETGEN'
+            else: out = 'RET:other'
+        binding = {}
+        if journal:
+            for name, v in journal[0][1].items():
+                ids = [i for i, o in enumerate(caller_objs) if o is v and meaningful(o)]
+                binding[name] = ids[0] if ids else None
+        return {'out': out, 'ran': len(journal), 'got': got, 'meaningful': mean, 'binding': binding}
+    d = one(P.mod, P.hook)
+    t = one(P.twin, P.twin_hook)
+    return {'out': d['out'], 'ran': d['ran'], 'got': d['got'], 'meaningful': d['meaningful'], 'binding': d['binding'],
+            'twin': {'out': t['out'], 'ran': t['ran'], 'binding': t['binding']}}
+
+
+def build_cases(rng, n_callables, calls_per=4, profile='mixed', style=None, tag='b'):
+    """generate a batch of programs, describe every callable, generate calls, run them; returns cases with the
+    implementation outcome cached under x['_impl'] (popped by run_impl; a replayed case is re-executed from its sources)"""
+    P = Programs(rng, n_callables, f'{tag}{rng.randrange(10**9)}', profile)
+    cases = []
+    try:
+        for F in P.F:
+            for acc in F['access']:
+                raw, mode = P.raw_of(F, acc)
+                if raw is None:
+                    continue
+                try:
+                    desc = describe(raw, mode)
+                except ValueError:
+                    continue
+                for _ in range(calls_per):
+                    pos, kw = gen_call(rng, F, desc, style)
+                    body = gen_body(rng, desc)
+                    impl = execute(P, F, acc, pos, kw, body)
+                    implicit = implicit_of(F['kind'], acc)
+                    truth = {'realStatic': F['kind'] in ('static_class', 'static_direct'), 'realSetter': False,
+                             'realPedantic': real_pedantic(F['kind'], F.get('alias', False)), 'implicit': implicit}
+                    mbody = ['raises', 0] if body[0] == 'raises' else body
+                    cases.append({'m': 'calllayer',
+                                  'c': {'env': K.env_json(), 'fn': desc, 'truth': truth,
+                                        'args': ([["inst", K.IDX[K.U]]] if implicit else []) + pos, 'kw': kw, 'body': mbody},
+                                  'x': {'src': F['src'], 'twin': F['twin'], 'access': list(acc), 'kind': F['kind'], 'flavour': F['flavour'],
+                                        'pos': pos, 'kwv': kw, 'body': body, 'implicit': implicit, 'needle': F['needle'], '_impl': impl}})
+    finally:
+        P.close()
+    return cases
+
+
+class OneProgram(Programs):
+    """a module holding exactly one stored callable (used when a case is replayed)"""
+
+    def __init__(self, src, twin, tag):
+        self.dir = tempfile.mkdtemp(prefix='pedcall_')
+        self.hook = Hook(); self.twin_hook = Hook(); self.F = []
+        self.path = os.path.join(self.dir, f'genmod_{tag}.py')
+        self.twin_path = os.path.join(self.dir, f'gentwin_{tag}.py')
+        open(self.path, 'w').write(PRELUDE + '\n' + src)
+        open(self.twin_path, 'w').write(TWIN_PRELUDE + '\n' + twin)
+        self.mod = load_module(self.path, f'genmod_{tag}', self.hook)
+        self.twin = load_module(self.twin_path, f'gentwin_{tag}', self.twin_hook)
+
+
+def run_impl_calls(cases):
+    out = []
+    for n, c in enumerate(cases):
+        x = c['x']
+        if '_impl' in x:
+            out.append(x.pop('_impl'))
+            continue
+        P = OneProgram(x['src'], x['twin'], f'r{n}_{os.getpid()}')
+        try:
+            F = {'flavour': x['flavour'], 'kind': x['kind']}
+            out.append(execute(P, F, tuple(x['access']), x['pos'], x['kwv'], x['body']))
+        finally:
+            P.close()
+    return out
+
+
+def norm_out(o):
+    return 'BIND:TypeError' if o == 'ESC:TypeError' else o
+
+
+def model_class(m):
+    c = m['caller']
+    return 'BODY_EXC' if c.startswith('BODY_EXC') else c
+
+
+def correspondence(case, impl, model):
+    """R for every call-layer property: outcome class, body-ran bit and forwarded caller objects agree"""
+    ic, mc = norm_out(impl['out']), norm_out(model_class(model))
+    implicit = case['x']['implicit']
+    npos = len(case['x']['pos'])
+    kwn = [k for k, _ in case['x']['kwv']]
+    mf = sorted([i - implicit for i in model['fwdPos'] if i >= implicit] + [npos + kwn.index(k) for k in model['fwdKw']]) if model['ran'] else []
+    mf = [i for i in mf if i in impl['meaningful']]
+    ok = ic == mc and bool(impl['ran']) == model['ran'] and (not impl['ran'] or impl['got'] == mf)
+    why = '' if ok else f"implementation ({impl['out']}, ran={impl['ran']}, got={impl['got']}) vs model ({model['caller']}, ran={model['ran']}, fwd={mf})"
+    return ok, why
+
+
+def twin_accepts(impl):
+    return impl['twin']['out'] in ('RET', 'BODY_EXC', 'RETGEN')
+
+
+def region_finding(model, table):
+    for reg, fid in table:
+        if reg in model['regions']:
+            return fid
+    return None
+
+
+def describe_case(case):
+    x = case['x']
+    return f"{x['kind']}/{x['access'][0]}: {x['src'].strip().splitlines()[0:4]} pos={json.dumps(x['pos'])} kw={json.dumps([[K.name_of(k), v] for k, v in x['kwv']])} body={json.dumps(x['body'])}"
+
+
+def make_case(src, twin, access, kind, flavour, pos, kw, body):
+    """a hand-written program as a case (known findings, corpus)"""
+    P = OneProgram(src, twin, f'm{abs(hash(src)) % 10**8}')
+    try:
+        F = {'flavour': flavour, 'kind': kind, 'src': src, 'twin': twin}
+        raw, mode = P.raw_of(F, tuple(access))
+        desc = describe(raw, mode)
+        implicit = implicit_of(kind, access)
+        kw = [[K.nid(k) if isinstance(k, str) else k, v] for k, v in kw]
+        truth = {'realStatic': kind in ('static_class', 'static_direct'), 'realSetter': False,
+                 'realPedantic': real_pedantic(kind, False), 'implicit': implicit}
+        mbody = ['raises', 0] if body[0] == 'raises' else body
+        return {'m': 'calllayer',
+                'c': {'env': K.env_json(), 'fn': desc, 'truth': truth, 'args': ([["inst", K.IDX[K.U]]] if implicit else []) + pos, 'kw': kw, 'body': mbody},
+                'x': {'src': src, 'twin': twin, 'access': list(access), 'kind': kind, 'flavour': flavour, 'pos': pos, 'kwv': kw, 'body': body,
+                      'implicit': implicit, 'needle': None}}
+    finally:
+        P.close()
